@@ -102,6 +102,26 @@ func (w *World) oracleOnFip(m *simkube.Mutation) {
 	oldF, newF := decodeFip(m.Old), decodeFip(m.New)
 	prev := w.M.allocs[ip]
 	// model bookkeeping (always): allocation epochs
+	if newF == nil && oldF != nil {
+		foreign := worldMutation(m)
+		if !foreign && (m.By.Tag == "api" || m.By.Tag == "reload" || m.By.Tag == "periodic-reload" || m.By.Tag == "probe") {
+			foreign = true
+		}
+		if foreign {
+			if id := w.M.idents[oldF.Key]; id != nil {
+				w.M.foreignDelete[id.App.poolPrefix()] = w.S.Steps
+			} else if app := w.appOfPrefix(oldF.Key); app != nil {
+				w.M.foreignDelete[app.poolPrefix()] = w.S.Steps
+			}
+		}
+	}
+	if newF != nil && isPodKey(newF.Key) && newF.UID != "" {
+		for _, o := range w.K.List("floatingips", "") {
+			if f := decodeFip(o); f.Key == newF.Key && f.IP != ip && f.UID != "" && f.UID != newF.UID {
+				w.M.mixedUIDs[newF.Key] = true // the key now holds IPs recorded for two different incarnations
+			}
+		}
+	}
 	switch {
 	case newF == nil:
 		delete(w.M.allocs, ip)
@@ -110,11 +130,22 @@ func (w *World) oracleOnFip(m *simkube.Mutation) {
 		w.noteAllocUID(al, newF.UID)
 		if prev != nil && prev.BindTime {
 			al.BindTime = true // the IP entered the pool through a bind-time allocation; re-keying does not change that
+			al.BindReason = prev.BindReason
 		}
 		if m.By != nil {
 			if tm, ok := m.By.Data.(*taskMeta); ok && tm != nil && tm.podUID != "" {
 				if fw := w.M.filterWin[tm.podUID]; fw != nil && fw.closed {
 					al.BindTime = true
+					// why did this pod get its IP only at bind time? (a) the Pool object was not visible with a size at
+					// some instant of its filter call, (b) it had an IP after its filter call and lost it again
+					if pool := poolOfKey(newF.Key); pool != "" {
+						if _, unsized := w.maxPoolSizeSince(pool, fw.start); unsized {
+							al.BindReason = "pool-unsized-during-filter"
+						}
+					}
+					if fw.hadIPAfterFilter {
+						al.BindReason = "filter-time-ip-taken-back"
+					}
 				}
 			}
 		}
@@ -164,7 +195,7 @@ func (w *World) oracleOnFip(m *simkube.Mutation) {
 			if moved {
 				what = fmt.Sprintf("handed from %q to %q", oldF.Key, newF.Key)
 			}
-			w.fail("C10.freed-while-assigned", "freed-while-assigned",
+			w.fail("C10.freed-while-assigned", w.c04Key("freed-while-assigned", oldF.Key, 0),
 				"FloatingIP %s %s by %s while the provider still has it assigned to node %s", ip, what, m.By.Name, w.cloud[ip])
 		}
 	}
@@ -219,6 +250,9 @@ func (w *World) oracleOnCloudUnassign(node, ip string) {
 func (w *World) oracleOnFiltered(fr *filterReport) {
 	if fw := w.M.filterWin[fr.UID]; fw != nil {
 		fw.closed = true
+		if p := w.podByUID[fr.UID]; p != nil && len(w.storeIPsOfKey(p.Key)) > 0 {
+			fw.hadIPAfterFilter = true
+		}
 	}
 }
 
@@ -290,6 +324,22 @@ func (w *World) oracleC02Create(m *simkube.Mutation, ip string, oldF, newF *FipI
 			return
 		}
 	}
+	// (d) the "wait for releasing" gate: a deployment pod with a reserving policy is not given a fresh IP if, at every
+	// instant of its last filter call, the deployment's pods already held as many IPs as it has replicas (a rolling
+	// update must wait for the old pod's IP instead of taking a fresh one)
+	if oldF == nil && id.App.Kind == "dp" && id.App.effPolicy() != "" {
+		for _, uid := range id.UIDs {
+			if pp := w.podByUID[uid]; pp == nil || w.gone[uid] || pp.finished() {
+				continue
+			}
+			if fw := w.M.filterWin[uid]; fw != nil && fw.closed && fw.gateClosed {
+				w.fail("C02.fresh-ip-while-app-holds-replicas-ips", "fresh-ip-while-app-holds-replicas-ips",
+					"pod %q got fresh IP %s (by %s) although throughout its last filter call (steps %d..) the pods of deployment %s/%s held at least as many IPs as it has replicas",
+					newF.Key, ip, m.By.Name, fw.start, id.App.NS, id.App.Name)
+				return
+			}
+		}
+	}
 	// (b) a deployment/pool pod with a reserving policy takes a reserved IP of its app, not a fresh one
 	if oldF == nil && id.App.Kind == "dp" && id.App.effPolicy() != "" {
 		for _, uid := range id.UIDs {
@@ -313,7 +363,7 @@ func (w *World) openFilterWindow(p *PodInfo) {
 	if p.App == nil {
 		return
 	}
-	w.M.filterWin[p.UID] = &filterWindow{app: p.App, hadReserve: w.unownedUnderPrefix(p.App.poolPrefix()) > 0, start: w.S.Steps}
+	w.M.filterWin[p.UID] = &filterWindow{app: p.App, hadReserve: w.unownedUnderPrefix(p.App.poolPrefix()) > 0, start: w.S.Steps, gateClosed: w.gateClosed(p.App)}
 }
 
 // trackFilterWindows is called on every FloatingIP mutation.
@@ -322,6 +372,9 @@ func (w *World) trackFilterWindows() {
 		fw := w.M.filterWin[uid]
 		if !fw.closed && fw.hadReserve && w.unownedUnderPrefix(fw.app.poolPrefix()) == 0 {
 			fw.hadReserve = false
+		}
+		if !fw.closed && fw.gateClosed && !w.gateClosed(fw.app) {
+			fw.gateClosed = false
 		}
 	}
 }
@@ -370,10 +423,23 @@ func (w *World) oracleC07(m *simkube.Mutation, ip string, oldF, newF *FipInfo) {
 		// signature of the finding: did some member of the pool get its IP from an allocation made at bind time
 		// (Bind allocates without the pool lock and without looking at the size)?
 		key := "pool-overgrown"
+		explained, unexplained := 0, 0
 		for _, x := range sortedKeys(w.M.allocs) {
 			if al := w.M.allocs[x]; poolOfKey(al.Key) == pool && al.BindTime {
-				key = "pool-overgrown:bind-time-allocation"
+				if al.BindReason != "" {
+					explained++
+				} else {
+					unexplained++
+				}
 			}
+		}
+		switch {
+		case unexplained > 0:
+			// a pod that was filtered while the pool was sized and visible and whose filter-time IP was not taken back
+			// still got its IP only at bind time: not the recorded finding
+			key = "pool-overgrown:bind-time-allocation-after-sized-filter"
+		case explained > 0:
+			key = "pool-overgrown:bind-time-allocation"
 		}
 		w.fail("C07.pool-overgrown", key, "pool %q now holds %d IPs (added %s under %q by %s), largest size in force since step %d is %d",
 			pool, n, ip, newF.Key, m.By.Name, start, max)
@@ -416,6 +482,17 @@ func (w *World) quiescentChecks(tag string, afterResync bool) {
 	if w.armed("C05") {
 		// restart/crash safety and agreement at the end of every history
 		w.evalMemcheck(tag)
+	}
+	if w.armed("C09") && tag == "q1" {
+		// convergence: faults have stopped and the periodic reload had three periods: the configuration in force is the
+		// newest one (a reload that failed is retried), and memory agrees with the store
+		if cs, idx := w.confInForceIdx(mem); idx != len(w.confVers)-1 {
+			_ = cs
+			w.fail("C09.reload-not-converged", "reload-not-converged",
+				"three reload periods after the last change and the last fault the configuration in force is version %d, the configmap holds version %d", idx, len(w.confVers)-1)
+		} else {
+			w.evalMemcheck(tag)
+		}
 	}
 	if afterResync && w.armed("C03", "C05") {
 		w.leakCheck()
@@ -557,12 +634,12 @@ func (w *World) oracleC08Failed(br *bindReport) {
 	w.S.Stat("probe.c08-failed-bind-rolled-back")
 }
 
-// c04Key builds the finding signature of a C04 violation: the circumstance "an API reply was lost earlier in the
-// run and the identity holds more than one IP" (an orphan of the lost reply) is part of the signature, so that a
-// violation without that circumstance is never mistaken for the recorded finding.
+// c04Key builds the finding signature of a violation caused by a release/re-key/unassign "by key": the circumstance
+// "the identity's key held IPs recorded for two different pod incarnations at some instant of the run" is part of the
+// signature, so that a violation without that circumstance is never mistaken for the recorded finding.
 func (w *World) c04Key(base, identity string, atLeast int) string {
-	if w.lostReplies > 0 && len(w.storeIPsOfKey(identity)) > atLeast {
-		return base + ":identity-held-second-ip-after-lost-reply"
+	if w.M.mixedUIDs[identity] {
+		return base + ":identity-held-ips-of-two-incarnations"
 	}
 	return base
 }
@@ -579,4 +656,41 @@ func (w *World) identityEverHadRanges(key string) bool {
 		}
 	}
 	return false
+}
+
+// gateClosed: the pods of a deployment with a reserving policy hold at least as many IPs as the deployment has
+// replicas (API truth or lister view, whichever is larger), and no Pool size is in play.
+func (w *World) gateClosed(a *App) bool {
+	if a == nil || a.Kind != "dp" || a.effPolicy() == "" {
+		return false
+	}
+	own := a.poolPrefix()
+	if a.Pool != "" {
+		if w.K.Get("pools", "kube-system", a.Pool) != nil || w.K.ViewGet("pools", "kube-system", a.Pool) != nil {
+			return false // sized pool: C07's business
+		}
+		own = "pool__" + a.Pool + "_dp_" + a.NS + "_" + a.Name + "_"
+	}
+	used := 0
+	for _, o := range w.K.List("floatingips", "") {
+		if f := decodeFip(o); strings.HasPrefix(f.Key, own) && f.Key != a.poolPrefix() {
+			used++
+		}
+	}
+	replicas := a.Replicas
+	if !a.Exists {
+		replicas = 0
+	}
+	if o := w.K.ViewGet("deployments", a.NS, a.Name); o != nil {
+		var d struct {
+			Spec struct {
+				Replicas int `json:"replicas"`
+			} `json:"spec"`
+		}
+		_ = json.Unmarshal(o.JSON, &d)
+		if d.Spec.Replicas > replicas {
+			replicas = d.Spec.Replicas
+		}
+	}
+	return replicas > 0 && used >= replicas
 }
